@@ -498,6 +498,8 @@ def spec_order(cid):
 def judge(case, res):
     """List of failures {kind, opts, detail} of the property on one observed case."""
     fails = []
+    for dff in res.get("repeat_diffs", []):
+        fails.append({"kind": "same-input-different-outcome", "opts": dff.get("opts", {}), "detail": dff})
     if not res.get("created"):
         if case.get("expect_created") and res.get("control_ok") is not False:
             # data that is valid by construction of the case (registered types / extensions only)
@@ -572,6 +574,7 @@ def judge(case, res):
 def slim(res):
     """drop bulky fields of passing observations"""
     res.pop("history", None)
+    res.pop("repeat_diffs", None)
     for o in res.get("obs", []):
         o.pop("value", None)
         o.pop("again", None)
@@ -583,13 +586,41 @@ def slim(res):
     return res
 
 
+def observe_case(case):
+    """observe(); for a case marked `twice`: observe, build other objects of the same class, observe again --
+    the same input must give the same outcome whatever was built in between"""
+    tw = case.get("twice")
+    if not tw:
+        return observe(case)
+    plain = {k: v for k, v in case.items() if k != "twice"}
+    r1 = observe(plain)
+    for b in tw.get("between", []):
+        try:
+            make(b)
+        except Exception:  # noqa: BLE001
+            pass
+    r2 = observe(plain)
+    diffs = []
+    for k in ("created", "err", "cls", "hc"):
+        if r1.get(k) != r2.get(k):
+            diffs.append({"what": k, "first": r1.get(k), "second": r2.get(k)})
+    if r1.get("created") and r2.get("created") and tw.get("compare_text"):
+        for o1, o2 in zip(r1["obs"], r2["obs"]):
+            for k in ("text", "ser_err", "parse_err", "equal", "same_class"):
+                if o1.get(k) != o2.get(k):
+                    diffs.append({"what": k, "opts": o1["opts"], "first": str(o1.get(k))[:200], "second": str(o2.get(k))[:200]})
+                    break
+    r1["repeat_diffs"] = diffs[:5]
+    return r1
+
+
 if __name__ == "__main__":
     for line in sys.stdin:
         line = line.strip()
         if not line:
             continue
         case = json.loads(line)
-        res = observe(case)
+        res = observe_case(case)
         fails = judge(case, res)
         res = slim(res)
         res["fails"] = fails
